@@ -272,6 +272,17 @@ Definition check (keys : list Z) (segs : list (list Z * Z)) (final : list Z) : Z
   | 0 => if zlist_eqb (enc (exec s0 (map dec_choice (flat_map fst segs)))) final then 0 else -1
   | n => n
   end.
+(* exhaustive exploration: the state reached by [path] (compared exactly when [here] is given) and
+   the fingerprint of the successor under each listed choice *)
+Fixpoint check_fans (s : st) (fans : list (Z * Z)) (n : Z) : Z :=
+  match fans with
+  | [] => 0
+  | (c, h) :: r => if fp (enc (step s (dec_choice c))) =? h then check_fans s r (n + 1) else n
+  end.
+Definition check_fan (keys : list Z) (path : list Z) (here : list Z) (fans : list (Z * Z)) : Z :=
+  let s := exec (init (map Z.to_nat keys)) (map dec_choice path) in
+  if match here with [] => true | _ => zlist_eqb (enc s) here end
+  then check_fans s fans 1 else -1.
 Definition final_enc (keys : list Z) (cs : list Z) : list Z :=
   enc (exec (init (map Z.to_nat keys)) (map dec_choice cs)).
 
